@@ -29,6 +29,10 @@ class DotGraphMachine:
     transition_font_size = "9"
     """Transition font size in points"""
 
+    initial_node_id = ".initial"
+    """Name of the pseudo-node that points at the initial state: not a valid identifier, so
+    that it cannot be the id of a state (a state named ``i`` used to be merged with it)"""
+
     def __init__(self, machine: StateMachine):
         self.machine = machine
 
@@ -45,7 +49,7 @@ class DotGraphMachine:
 
     def _initial_node(self):
         node = pydot.Node(
-            "i",
+            self.initial_node_id,
             shape="circle",
             style="filled",
             fontsize="1",
@@ -58,7 +62,7 @@ class DotGraphMachine:
 
     def _initial_edge(self):
         return pydot.Edge(
-            "i",
+            self.initial_node_id,
             self.machine.initial_state.id,
             label="",
             color="blue",
